@@ -6,7 +6,7 @@ EXPLANATION = ('Call-graph and path analysis of the ykh binary\'s MIR: every com
                'turns unwinding panics into Err, main prints a table only on the Ok arm and exits non-zero with only stderr output on '
                'the Err arm, nothing reachable from dispatch writes stdout (no partial table before an error), no panic=abort profile; '
                'and the expanded (-t, -c) dispatch of kh/ckh calls App::<T>::run exactly with the documented ring type for each '
-               'combination, with every documented combination present. (E28) the module string of a cell mentions every summand: "0" only for the trivial module, the bare symbol for rank 1, symbol^rank above, and one (symbol/t)[^mult] per torsion key, for every rank. NOT decided: which cell a group is printed in, '
+               'combination, with every documented combination present. (E28) the module string of a cell mentions every summand: "0" only for the trivial module, the bare symbol for rank 1, symbol^rank above, and one (symbol/t)[^mult] per torsion key, for every rank. (E28.S4) a group is printed in the cell of its own bidegree: rows = j descending, columns = i ascending, entry(row, col) = get((col, row)), and format::table calls entry(row, col) over all rows x columns. NOT decided: '
                'separator characters, malformed-input detection inside the parsers.')
 TRUSTED = ['rustc MIR of the ykh crate (default features; thorough tier adds --features all / bigint / i128)',
            'call graph over-approximates (CHA)', 'std::process::exit terminates with the given status']
@@ -18,6 +18,7 @@ def run(ctx, rep):
     e10_cli.run(facts, rep, 'i64', harness.REPO)
     rep.rule('E28', e28_rmodstr.__doc__.strip().split('\n')[0])
     e28_rmodstr.run(facts, rep)
+    e28_rmodstr.check_cell_placement(facts, rep)
     if ctx.tier == 'thorough':
         for cfg, ity in (('ykh-i128', 'i128'), ('ykh-bigint', 'num_bigint::BigInt')):
             f2 = ctx.facts(cfg)
